@@ -190,7 +190,7 @@ fn materialise(sb: &Sandbox, o: &Opts, dir: &str, reverse: bool) {
 }
 
 fn observe(ctx: &Ctx, o: &Opts) -> Obs {
-  let sb = Sandbox::new(&ctx.work, "c05");
+  let sb = Sandbox::new_tmpfs(&ctx.work, "c05");
   materialise(&sb, o, &format!("run1/{}", o.input()), false);
   if o.overwrite {
     // a longer file from an earlier run is in the way
